@@ -32,7 +32,7 @@ func init() {
 		MinEvals:        floor(100000, 500000),
 		MinDistinct:     floor(50000, 100000),
 		RequiredCells: func(string) []string {
-			return []string{"purity/command/history", "purity/command/concurrent", "rel/equal", "rel/parent", "rel/child", "rel/textual-prefix", "rel/sibling", "rel/top", "parse/accept", "parse/reject-noslash", "parse/reject-trailing", "parse/reject-upper", "join", "transitivity/chain", "non-ascii-pairs", "lookalike-pairs", "parse/alphabet/other-uppercase"}
+			return []string{"purity/command/history", "purity/command/concurrent", "rel/equal", "rel/parent", "rel/child", "rel/textual-prefix", "rel/sibling", "rel/top", "parse/accept", "parse/reject-noslash", "parse/reject-trailing", "parse/reject-upper", "join", "join/with-empty-segments", "transitivity/chain", "non-ascii-pairs", "lookalike-pairs", "parse/alphabet/other-uppercase"}
 		},
 	})
 	addSelfTest("R-cmd vs in-tree TestCovers vectors", selfTestCmd)
@@ -195,7 +195,7 @@ func runC15(w *mon.W) {
 	// symbol, long s, sharp s), NFC vs NFD, full-width forms, percent-encoding, zero-width
 	// joiner, trailing dot / space - all ordered pairs of commands of <=2 such segments
 	{
-		segs := []string{"σ", "ς", "μ", "µ", "θ", "ϑ", "s", "ſ", "ß", "ss", "é", "e\u0301", "a", "ａ", "%61", "a\u200d", "a.", "a ", "k", "\u0138"}
+		segs := []string{"σ", "ς", "μ", "µ", "θ", "ϑ", "s", "ſ", "ß", "ss", "é", "e\u0301", "a", "ａ", "%61", "a\u200d", "a.", "a ", "k", "\u0138", ".", "..", "~"}
 		u := []string{"/"}
 		for _, x := range segs {
 			u = append(u, "/"+x)
@@ -349,6 +349,30 @@ func runC15(w *mon.W) {
 		if base == "/" {
 			if nw := command.New(segs...); string(nw) != want {
 				w.Violate("new", fmt.Sprintf("New(%q) = %q, want %q", segs, nw, want), map[string]any{"segs": segs})
+			}
+		}
+		// with empty segments among them the exact result is not pinned by the property (dropped or
+		// kept as empty segments), but what comes out must still be a command: Parse accepts it and
+		// returns it unchanged, and it is covered by the base command
+		if n > 0 {
+			withEmpty := append([]string{}, segs...)
+			k := w.Rng.IntN(len(withEmpty) + 1)
+			withEmpty = append(withEmpty[:k:k], append([]string{""}, withEmpty[k:]...)...)
+			if w.Rng.IntN(3) == 0 {
+				withEmpty = append(withEmpty, "")
+			}
+			for vi, got := range []command.Command{command.Command(base).Join(withEmpty...), command.New(withEmpty...)} {
+				if vi == 1 && base != "/" {
+					continue
+				}
+				w.Eval(1)
+				w.Cover("join/with-empty-segments")
+				p, err := command.Parse(string(got))
+				if err != nil || p != got || !ref.CmdValid(string(got)) {
+					w.Violate("join/result-not-a-command", fmt.Sprintf("Command(%q).Join(%q) = %q, which is not a valid command (Parse: %v)", base, withEmpty, got, err), map[string]any{"base": base, "segs": withEmpty, "result": string(got)})
+				} else if !command.Command(base).Covers(got) {
+					w.Violate("join/result-not-under-base", fmt.Sprintf("Command(%q).Join(%q) = %q is not covered by the base command", base, withEmpty, got), map[string]any{"base": base, "segs": withEmpty, "result": string(got)})
+				}
 			}
 		}
 	}
